@@ -5,7 +5,7 @@ from hypothesis import strategies as st
 from .. import gen, ref
 from ..core import Clause, Out, Property
 from ..env import L
-from ..lib import F, Q, ahash
+from ..lib import F, Q, ahash, case_flag, quiet
 
 U_ = ref.U
 C1 = 10.0
@@ -143,7 +143,10 @@ def check_schur(case):
     h0 = ahash(Aq)
     f = getattr(L.schur, fn)
     site = f"{fn}"
-    ok, r = out.call(site, f, Aq, max_iter=max_iter, tol=tol, return_diagnostics=True, **kw)
+    if case_flag(A, 6):
+        kw = dict(kw, verbose=True)          # the verbose path returns the same decomposition
+        out.label("verbose=True")
+    ok, r = out.call(site, quiet, f, Aq, max_iter=max_iter, tol=tol, return_diagnostics=True, **kw)
     if not ok:
         return out
     out.true(site + ":argument unchanged", ahash(Aq) == h0, "input modified")
